@@ -503,6 +503,11 @@ def gen_history(rng, types, nops):
                 for i, p in enumerate(parts):
                     toks += ([(',',)] if i else []) + p
                 meta = {'valid': False}
+            elif w < 0.46:
+                # nothing but comments / nothing at all: rejected, the list (flag included) stays
+                counter[0] += 1
+                toks = [] if rng.random() < 0.3 else [('C', counter[0])] * rng.randrange(1, 3)
+                meta = {'valid': False}
             ops.append(('settext', toks, render(rng, toks), meta))
         elif r < 0.62:
             w = rng.random()
